@@ -42,7 +42,7 @@ KEYS = {"pathways": PTYPES, "types": PTYPES, "processes": sorted(PROCESSES), "si
 CONVERT_OK = {("pathways", "types"), ("pathways", "processes"), ("pathways", "signals"), ("pathways", "off"),
               ("types", "processes"), ("types", "signals"), ("types", "off"), ("processes", "off"),
               ("signals", "off")}
-TAGS = ["a", "b", "c", "d", 0, 1, ""]        # string and integer tags, including the ones that evaluate false
+TAGS = ["a", "b", "c", "d", 0, 1, "", "1", "0"]        # string and integer tags, including the ones that evaluate false
 MODES = ["cur", "cur", "cur", "cur", "same", "cross", "badkey", "badtag"]
 
 
@@ -241,7 +241,14 @@ def compare_views(ctx, tw, storage, adds, shape, clause, where, step):
             acc = acc + numpy.asarray(v)
         want = expected_views(storage, adds, shape)[("total", TOTL)]
         if want is not None and not numpy.allclose(acc, want, rtol=0, atol=1e-12):
-            ctx.fail(clause, where, view=["get_all_data"], got=acc, want=want, step=step)
+            pw = [(a["key"], a["tag"]) for a in adds if a["level"] == "pathways"]
+            collide = storage == "pathways" and any(k1 == k2 and t1 != t2 and str(t1) == str(t2)
+                                                    for i, (k1, t1) in enumerate(pw) for (k2, t2) in pw[i + 1:])
+            if collide:
+                # (a narrower name for the one view that is keyed by the text of the tags)
+                ctx.fail(clause + "/all-data-view", where + "/tags-of-equal-text", got=acc, want=want, step=step)
+            else:
+                ctx.fail(clause, where, view=["get_all_data"], got=acc, want=want, step=step)
             return False, n
     except Exception as e:
         ctx.fail(clause + "/read-raises", where, view=["get_all_data"], exc=type(e).__name__, step=step)
